@@ -261,6 +261,11 @@ func runCLI(args []string) int {
 				fmt.Printf("  NOT TRANSLATED: %s", rep.Unsupp)
 			}
 			fmt.Println()
+			if rep.Unsupp != "" {
+				if c := E.Specs.Contracts[n]; c != nil && !c.Trusted {
+					fmt.Printf("FAILED-OBLIGATION %s:not-translated props=%s\n", n, strings.Join(allProps(c), ","))
+				}
+			}
 		}
 		if len(names) == 0 || os.Getenv("GVC_LEMMAS") != "" {
 			_, lerrs := E.GenLemmas(cfg.Prop)
@@ -275,6 +280,7 @@ func runCLI(args []string) int {
 			fmt.Printf("  %-9s %-70s [%s] x%d %dms %s %s\n", r.Status, r.Name, r.Reading, r.Instances, r.Ms, r.Solver, r.FailInfo)
 			if r.Status != "discharged" {
 				nfail++
+				fmt.Printf("FAILED-OBLIGATION %s props=%s\n", r.Name, strings.Join(r.Props, ","))
 				if cfg.DumpDir != "" {
 					os.MkdirAll(cfg.DumpDir, 0o755)
 					fn := filepath.Join(cfg.DumpDir, sanitize(r.Name)+".smt2")
